@@ -15,6 +15,7 @@ import (
 	"github.com/IrineSistiana/mosproxy/internal/dnsmsg"
 	"github.com/IrineSistiana/mosproxy/internal/dnsutils"
 	"github.com/IrineSistiana/mosproxy/internal/pool"
+	"github.com/IrineSistiana/mosproxy/internal/verifhook"
 )
 
 var (
@@ -58,6 +59,7 @@ func (c *pipelineConn) startLoops() {
 
 // exchange writes payload to connection waits for its reply.
 func (c *pipelineConn) exchange(ctx context.Context, m []byte) (*dnsmsg.Msg, error) {
+	verifhook.Point("pipeline.exchange")
 	respChan := make(chan *dnsmsg.Msg, 1)
 	qid, err := c.addQueueC(respChan)
 	if err != nil {
